@@ -161,7 +161,7 @@ def run(tier):
         inner_ids = [(id(p.get('datasets')), id(p.get('alias')), [id(x) for x in p.get('datasets', {}).values()] if isinstance(p.get('datasets'), dict) else [])
                      for p in src]
         try:
-            db = dbm.DictDatabase(*src)
+            db = dbm.DictDatabase(list(src)) if ci % 3 == 0 else dbm.DictDatabase(*src)        # both spellings: one list of parts / separate arguments
             merged = db.data
             ok = True
             # heap view taken right after construction (later requests add an empty 'alias' via setdefault)
@@ -176,6 +176,23 @@ def run(tier):
                 a = answer(db, q)
                 answers.append(a)
             # ---- direct predicates
+            # the advertised names are exactly the dataset names followed by the alias names of the merged description
+            try:
+                names = list(db.dataset_names)
+            except Exception as e:
+                names = f'raised {type(e).__name__}'
+            want_names = [n for p in snap for n in p.get('datasets', {})] + [n for p in snap for n in p.get('alias', {})]
+            if names != want_names and any('datasets' in p for p in snap):       # without any datasets section the attribute raises KeyError (loud)
+                failures.append(dict(kind='history', summary=f'dataset_names = {names}, the merged description has datasets + aliases {want_names}', config=dict(parts=snap, reqs=reqs)))
+            # requests that are neither a name nor a sequence of names are refused
+            for badreq in (None, {'x': 1}, 7):
+                try:
+                    db.get_dataset(badreq)
+                    failures.append(dict(kind='history', summary=f'get_dataset({badreq!r}) was answered', config=dict(parts=snap, reqs=reqs)))
+                except (TypeError, KeyError, AssertionError):
+                    pass
+                except Exception:
+                    pass
             # sources untouched (only an EMPTY 'alias' entry may appear at the top level of a single source)
             for p, s in zip(src, snap):
                 pp = dict(p)
@@ -246,7 +263,7 @@ def run(tier):
                     with open(pth, 'w') as fh:
                         json.dump(p, fh)
                     paths.append(pth)
-                jdb = dbm.JsonDatabase(*paths)
+                jdb = dbm.JsonDatabase(list(paths)) if ci % 20 == 0 else dbm.JsonDatabase(*paths)
                 j2 = pickle.loads(pickle.dumps(jdb))
                 for q, a in zip(reqs, answers):
                     if answer(jdb, q) != a or answer(j2, q) != a:
@@ -254,6 +271,14 @@ def run(tier):
                         break
             except Exception as e:
                 failures.append(dict(kind='history', summary=f'JSON database raised {type(e).__name__} where the dict database worked', config=dict(parts=snap, reqs=reqs)))
+    # no description at all is refused
+    for ctor in (lambda: dbm.DictDatabase(), lambda: dbm.JsonDatabase().data, lambda: dbm.DictDatabase([]), lambda: dbm.JsonDatabase([]).data,
+                 lambda: dbm.DictDatabase([{'datasets': {}}], {'datasets': {}})):
+        try:
+            ctor()
+            failures.append(dict(kind='history', summary='a database without any description was accepted', config={}))
+        except Exception:
+            pass
     shutil.rmtree(tmp, ignore_errors=True)
     d = common.fresh_dir(f'C19_{tier}')
     files = []
